@@ -3,7 +3,14 @@
 // scheduler, prints the trace(s).
 //
 //	work <n> <initial items, comma separated | -> <graph: item>child,child;item>... | -> <sched>
-//	cache <goroutines: each a ';'-separated list of ops d<key> / g<key>, goroutines separated by '|'> <sched>
+//	cache <goroutines: each a ';'-separated list of ops d<key> / n<key> / g<key>, goroutines separated by '|'> <sched>
+//
+// Work items are decimal numbers; `a..b` in an item list stands for a, a+1, …, b and a graph part
+// `a..b>c,d` gives every item of the range the children c, d.  The item written 999 is the Go value
+// nil (`w.Add(nil)`; nil is a valid map key, hence a valid item); every other item is the string of
+// its number.  Cache op `d<key>` is Do(key, f) with an f that returns "<key>#<number of the
+// invocation>", `n<key>` is Do(key, f) with an f that returns the untyped nil, `g<key>` is Get(key).
+//
 //	dfs <preemption bound> <max schedules> work <n> <init> <graph>
 //	dfs <preemption bound> <max schedules> cache <goroutines>
 //
@@ -187,6 +194,48 @@ func finish(s *vshim.Sched, c *chooser) string {
 
 // ---- scenarios
 
+// the item that stands for the Go value nil
+const nilItem = "999"
+
+func toItem(name string) any {
+	if name == nilItem {
+		return nil
+	}
+	return name
+}
+
+func itemName(item any) string {
+	if item == nil {
+		return nilItem
+	}
+	if s, ok := item.(string); ok {
+		return s
+	}
+	return fmt.Sprintf("?%v", item)
+}
+
+// expandItems turns "3,7..9" into [3 7 8 9].
+func expandItems(list string) []string {
+	var out []string
+	if list == "-" || list == "" {
+		return nil
+	}
+	for _, el := range strings.Split(list, ",") {
+		if ab := strings.SplitN(el, "..", 2); len(ab) == 2 {
+			a, err1 := strconv.Atoi(ab[0])
+			b, err2 := strconv.Atoi(ab[1])
+			if err1 == nil && err2 == nil {
+				for x := a; x <= b; x++ {
+					out = append(out, strconv.Itoa(x))
+				}
+				continue
+			}
+		}
+		out = append(out, el)
+	}
+	return out
+}
+
 func runWork(f []string, c *chooser) string {
 	n, _ := strconv.Atoi(f[1])
 	children := map[string][]string{}
@@ -194,27 +243,36 @@ func runWork(f []string, c *chooser) string {
 		for _, part := range strings.Split(f[3], ";") {
 			kv := strings.SplitN(part, ">", 2)
 			if len(kv) == 2 && kv[1] != "" {
-				children[kv[0]] = strings.Split(kv[1], ",")
+				cs := expandItems(kv[1])
+				for _, x := range expandItems(kv[0]) {
+					children[x] = cs
+				}
 			}
 		}
 	}
+	init := expandItems(f[2])
 	s := vshim.NewSched()
 	c.install(s)
-	s.MaxSteps = 20000 + 40*n
+	s.MaxSteps = 20000 + 40*n + 12*len(init)
 	s.SpawnProc(0, func() {
 		var w par.Work
-		if f[2] != "-" {
-			for _, it := range strings.Split(f[2], ",") {
-				w.Add(it)
-			}
+		// add-call / add-return bracket every call of Add (notes: no scheduling point)
+		add := func(name string) {
+			vshim.Note("add-call", name)
+			w.Add(toItem(name))
+			vshim.Note("add-return", name)
+		}
+		for _, it := range init {
+			add(it)
 		}
 		vshim.Note("do-call", fmt.Sprint(n))
 		w.Do(n, func(item any) {
-			vshim.Step("f-enter", item.(string))
-			for _, c := range children[item.(string)] {
-				w.Add(c)
+			name := itemName(item)
+			vshim.Step("f-enter", name)
+			for _, c := range children[name] {
+				add(c)
 			}
-			vshim.Step("f-exit", item.(string))
+			vshim.Step("f-exit", name)
 		})
 		vshim.Note("do-return")
 	})
@@ -237,11 +295,16 @@ func runCache(f []string, c *chooser) string {
 				}
 				key := op[1:]
 				switch op[0] {
-				case 'd':
+				case 'd', 'n':
+					returnsNil := op[0] == 'n'
 					vshim.Note("do-call", key)
 					v := ch.Do(key, func() any {
 						vshim.Step("f-enter", key)
 						calls[key]++
+						if returnsNil {
+							vshim.Step("f-exit", key, "<nil>")
+							return nil
+						}
 						v := fmt.Sprintf("%s#%d", key, calls[key])
 						vshim.Step("f-exit", key, v)
 						return v
